@@ -15,7 +15,7 @@ def classify(spec, cex):
 
 def ties(rep):
     """Concrete tie through the public API on real SQLite: value seen after flush == value a fresh session reads."""
-    from pony.orm import Database, Required, Optional, db_session, commit, flush
+    from pony.orm import Database, Required, Optional, db_session, commit, flush, IntArray, StrArray, FloatArray, Json
     db = Database()
     class T(db.Entity):
         i8 = Optional(int, size=8); i64 = Optional(int, size=64); u32 = Optional(int, size=32, unsigned=True)
@@ -24,6 +24,7 @@ def ties(rep):
         t = Optional(dt.time); t0 = Optional(dt.time, precision=0); d = Optional(dt.date); ts = Optional(dt.datetime); ts3 = Optional(dt.datetime, precision=3)
         td = Optional(dt.timedelta); td0 = Optional(dt.timedelta, precision=0)
         raw = Optional(bytes)
+        ia = Optional(IntArray); sa = Optional(StrArray); fa = Optional(FloatArray); js = Optional(Json)
     db.bind('sqlite', ':memory:')
     db.generate_mapping(create_tables=True)
     cases = [
@@ -34,6 +35,8 @@ def ties(rep):
         ('ts', dt.datetime(2000, 2, 29, 23, 59, 59, 999999)), ('ts', dt.datetime(1, 1, 1)), ('ts3', dt.datetime(2024, 1, 1, 0, 0, 0, 999999)),
         ('td', dt.timedelta(days=1, microseconds=1)), ('td', dt.timedelta(days=-1, microseconds=1)), ('td', dt.timedelta(microseconds=-1)), ('td0', dt.timedelta(seconds=1, microseconds=999999)),
         ('td', dt.timedelta(days=99999, seconds=86399, microseconds=999999)), ('td', dt.timedelta(days=400000, microseconds=1)),
+        ('ia', []), ('ia', [1, -2, 2 ** 40]), ('sa', []), ('sa', ['a', '', 'b c']), ('fa', []), ('fa', [0.5, -1e10]),
+        ('js', {}), ('js', []), ('js', {'a': [1, {'b': None}], 'c': 'caf\u00e9'}), ('js', [[], {}]), ('js', 'text'), ('js', 1.5), ('js', 7), ('js', True),
     ]
     for n, (attr, val) in enumerate(cases):
         name = 'tie: %s = %r' % (attr, val)
@@ -81,6 +84,7 @@ def run(tier, seed, only=None):
     if only: specs = [s for s in specs if only in s['fn']]
     ch.run_harnesses(rep, specs, classify)
     if not only: ties(rep)
+    if not only or only == 'sweep': microsecond_sweep(rep, tier)
     rep.bounds = {'ints': 'unbounded, six sizes, signed/unsigned', 'microsecond rounding': 'all us in [0, 10^6), precision 0..6',
                   'date/time fields': 'boundary lists US=%r SEC=%r HOUR=%r YEAR=%r MONTH=%r DAY=%r DAYS=%r PREC=%r' % (h.US, h.SEC, h.HOUR, h.YEAR, h.MONTH, h.DAY, h.DAYS, h.PREC)}
     rep.assumptions = ['store() = SQLite column behaviour: INTEGER 64-bit, TEXT verbatim, REAL = IEEE double (Python float)',
@@ -88,3 +92,36 @@ def run(tier, seed, only=None):
                        'engine E4 of the design was not built); float text round trip, str/bytes/UUID/Json (identity or C code) and the PostgreSQL/MySQL drivers are outside']
     rep.trusted = ['crosshair-tool', 'z3', 'CPython datetime/float']
     return rep
+
+
+def microsecond_sweep(rep, tier):
+    """Concrete tie (enumeration, NOT solver-quantified): the text codecs of the SQLite time / datetime converters and pony.utils'
+    timestamp functions over the microsecond field - every 7th value in the quick tier (142 858 values), all 10^6 in the thorough
+    tier; the other fields fixed.  The harnesses draw microseconds from a short boundary list because strftime/'%06d' realise a
+    symbolic integer; this sweep covers the values between the boundaries."""
+    import time
+    from checks import h_c07 as h
+    from pony.utils import utils as pu
+    step = 7 if tier == 'quick' else 1
+    tconv = h._conv(h.sq.SQLiteTimeConverter, dt.time, 6)
+    dconv = h._conv(h.sq.SQLiteDatetimeConverter, dt.datetime, 6)
+    codecs = [
+        ('SQLiteTimeConverter', lambda us: dt.time(23, 59, 59, us), lambda v: tconv.sql2py(tconv.py2sql(v))),
+        ('SQLiteDatetimeConverter', lambda us: dt.datetime(2024, 2, 29, 12, 0, 59, us), lambda v: dconv.sql2py(dconv.py2sql(v))),
+        ('utils.timestamp2datetime(datetime2timestamp)', lambda us: dt.datetime(1999, 12, 31, 23, 59, 59, us), lambda v: pu.timestamp2datetime(pu.datetime2timestamp(v))),
+    ]
+    for name, make, trip in codecs:
+        t0 = time.time()
+        bad = None
+        try:
+            for us in range(0, 1000000, step):
+                v = make(us)
+                r = trip(v)
+                if r != v or type(r) is not type(v): bad = (v, r); break
+        except Exception as ex:
+            bad = (us, '%s: %s' % (type(ex).__name__, ex))
+        nm = 'microsecond sweep: %s' % name
+        if bad is None: rep.add(Ob(nm, 'concrete-tie', HOLDS, detail='%d values' % len(range(0, 1000000, step)), time_s=time.time() - t0))
+        else:
+            rep.add(Ob(nm, 'concrete-tie', CEX, detail='%r reads back as %r' % bad, reproduced=True, key=None, cex={'value': repr(bad[0]), 'read': repr(bad[1])},
+                       replay='# C07 microsecond sweep %s: %r reads back as %r\nraise SystemExit(1)\n' % (name, bad[0], bad[1])))
